@@ -118,7 +118,10 @@ def execute(job):
                 # a Put aimed at a path that is a directory cannot take effect: like a bad Put it must be answered by an
                 # error reply and change nothing
                 # - and so must a Put into the hub's own control directory (.copia/): it holds the commit lock
-                op["valid"] = k == "put" and rq[1] not in dirs and rq[1].split("/")[0] != ".copia"
+                # - and a Put to a path one of whose leading components is a FILE on the hub (in the programs that do this the
+                #   file is replaced but never removed)
+                op["valid"] = (k == "put" and rq[1] not in dirs and rq[1].split("/")[0] != ".copia"
+                               and not any(rq[1].startswith(n + "/") for n in init))
                 op["conf"] = rq[1] + "#" + rq[3]
             elif k == "delete":
                 op = {"kind": "delete", "path": rq[1], "exp": rq[2]}
